@@ -28,7 +28,7 @@ from qiskit_addon_cutting.qpd import weights as _weights_mod
 from qiskit_addon_cutting.utils.observable_grouping import ObservableCollection
 from qiskit_addon_cutting.utils.simulation import ExactSampler
 
-from common import CaseWriter, Res, Raw, Qc, Opt, Interner, tagged, untag
+from common import CaseWriter, Res, Raw, Qc, Nc, Opt, Interner, tagged, untag
 
 IMPORTS = ("From Coq Require Import QArith.\n"
            "From CKT Require Import Common.Base Model.Observables Corr.C01Corr.\n"
@@ -435,7 +435,7 @@ def coq_case(spec, impl, numbers_ok):
         [(list(s[0]), Qc(Fraction(s[1]))) for s in st["samples"]],
         [list(l) for l in st["L"]],
         [(list(p[0]), [[(int(mn[0]), int(mn[1])) for mn in locs] for locs in p[1]]) for p in st["parts"]],
-        list(st["counts"]),
+        [Nc(c) for c in st["counts"]],
         int(st["nobs"]),
         (Qc(lo), Qc(hi), Qc(tol)),
         side,
@@ -539,7 +539,11 @@ def generate(rng, tier, outdir):
 # property-level oracle and replay
 # ------------------------------------------------------------------------------------------------
 def judge(case):
-    return verdict(case, case["impl"])
+    """Works from the case JSON alone; never raises."""
+    try:
+        return verdict(case, case["impl"])
+    except Exception as e:  # noqa: BLE001
+        return dict(violates=False, detail=f"judge could not evaluate this case ({type(e).__name__}: {e})")
 
 
 def rerun(case):
